@@ -9,8 +9,13 @@ import importlib
 import sys
 sys.path.insert(0, str(ROOT / "tools"))
 
+# properties whose check the lead has reviewed, run at several seeds on the unchanged tree and registered
+REGISTERED = ["C05", "C06", "C09", "C13"]
+
 CHECKS = {}
 for f in sorted((ROOT / "tools" / "props").glob("c[0-9][0-9].py")):
+    if f.stem.upper() not in REGISTERED:
+        continue
     mod = importlib.import_module("props." + f.stem)
     if hasattr(mod, "MANIFEST"):
         CHECKS[f.stem.upper()] = mod.MANIFEST
